@@ -53,7 +53,7 @@ PLANS["C13"]["hang_is_violation"] = True
 PLANS["C13"]["locks"] = True            # lock events of the shutdown runs -> Locks.tla: no wait cycle may involve the shutdown sequence
 PLANS["C13"]["locks_about"] = "C_Shut"
 # free-running rounds in which shutdown() is called in the middle of the traffic: it must return, and every caller with it
-PLANS["C13"]["stress"] = {"quick": [{"rounds": 200, "threads": 6, "ops": 6000, "timeout_ms": 8000, "args": "--shutdown-mid"}],
+PLANS["C13"]["stress"] = {"quick": [{"rounds": 400, "threads": 6, "ops": 6000, "timeout_ms": 8000, "args": "--shutdown-mid"}],
                           "thorough": [{"rounds": 3000, "threads": 6, "ops": 6000, "timeout_ms": 15000, "args": "--shutdown-mid"}]}
 PLANS["C15"]["hang_is_violation"] = True
 
@@ -155,7 +155,7 @@ CONTEND_T = {"name": "hist-contend", "cmd": "hist --mode contend --seed {seed} -
 PLANS["C12"]["profiles"] = {"quick": with_spec(profs([("delrace", 8), ("burst", 6), ("mix", 5)], 2), "TraceCacheD"),
                             "thorough": with_spec(profs([("delrace", 8), ("burst", 6), ("mix", 5)], 14), "TraceCacheD")}
 # shutdown in the middle of free-running traffic also for C18 (every call returns)
-PLANS["C18"]["stress"] = {"quick": PLANS["C18"]["stress"]["quick"] + [{"rounds": 200, "threads": 6, "ops": 6000, "timeout_ms": 8000, "args": "--shutdown-mid"}],
+PLANS["C18"]["stress"] = {"quick": PLANS["C18"]["stress"]["quick"] + [{"rounds": 400, "threads": 6, "ops": 6000, "timeout_ms": 8000, "args": "--shutdown-mid"}],
                           "thorough": PLANS["C18"]["stress"]["thorough"] + [{"rounds": 3000, "threads": 6, "ops": 6000, "timeout_ms": 15000, "args": "--shutdown-mid"}]}
 PLANS["C12"]["direct"]["quick"] = PLANS["C12"]["direct"]["quick"] + [CONTEND_Q]
 PLANS["C12"]["direct"]["thorough"] = PLANS["C12"]["direct"]["thorough"] + [CONTEND_T]
